@@ -179,10 +179,20 @@ class C08(World):
         if mode == "pipeline":
             from worlds import problems
 
-            prob = problems.generate(S("problem"), small=True)
+            pr = S("problem")
+            if pr.random() < 0.3:
+                corp = [c for c in problems.corpus() if len(c[1]["streams"]) <= 30]
+                name, prob = corp[pr.randrange(len(corp))]
+                prob = copy.deepcopy(prob)
+            else:
+                prob = problems.generate(pr, small=True)
             opts = problems.gen_options(S("options"), kind="c08")
             if opts:
                 prob["options"] = opts
+            if sw.random() < 0.025:
+                # heat-pump targeting reaches the third call site (calc_heat_pump_cascade) within seconds,
+                # even though the service call as a whole then raises further on
+                prob["options"] = dict(prob.get("options") or {}, **{sw.choice(["DO_PROCESS_HP_TARGETING", "DO_UTILITY_HP_TARGETING"]): True})
             return dict(swarm=dict(mode=mode), steps=[dict(op="pipeline", problem=prob)])
         swarm = dict(
             mode=mode,
